@@ -56,12 +56,19 @@ func (c *Ctx) PeerNamesUnique(prop string) {
 				if !ok {
 					continue
 				}
-				pt, ok := mt.Elem().(*types.Pointer)
-				if !ok || !namedIs(pt.Elem(), pkgCore, "Endpoint") {
+				isEndpoint := namedIs(mt.Elem(), pkgCore, "Endpoint")
+				if pt, isPtr := mt.Elem().(*types.Pointer); isPtr && namedIs(pt.Elem(), pkgCore, "Endpoint") {
+					isEndpoint = true
+				}
+				if !isEndpoint {
 					continue
 				}
 				n++
-				al, ok := mu.Value.(*ssa.Alloc)
+				val := mu.Value
+				if ld, isLoad := val.(*ssa.UnOp); isLoad {
+					val = ld.X // a table of endpoint values: the literal is built in a local and copied in
+				}
+				al, ok := val.(*ssa.Alloc)
 				if !ok {
 					c.R.Fail(rule, Fn(fn), c.Pos(mu), "the endpoint put into the peers table is built elsewhere ("+an.Term(mu.Value)+"): the name it carries is not the value the duplicate check was made on", "table[id] = &Endpoint{Name: <the checked name>}", nil)
 					continue
